@@ -51,7 +51,11 @@ def c10_units(valid):
     Attempt.got; Run/Gs3Faults.lean: gs3Got)"""
     c = valid.case()
     n = len(c.script[0]) - 1 if c.script and c.script[0] != "X" else 0
-    return [0, 1, 2] if n >= 2 else [0, 1]
+    # (replies of 2-4 data packets, at most C10_BASE_CAP bases: see props/families/valve.py)
+    return [0, 1, 2] if 2 <= n <= 4 else [0, 1]
+
+
+C10_BASE_CAP = {2: 10}
 
 
 def _got(unit, i, packets):
